@@ -25,9 +25,13 @@ func c18(c *Ctx) {
 	errflow.E2E3(c.P, r, sets, errflow.E2Options{Exceptions: e2Exceptions})
 	errflow.E4(c.P, r, "ErrNoMorePackets", sets)
 	errflow.E4b(c.P, r)
+	errflow.E4c(c.P, r, "ErrNoMorePackets")
 	errflow.E2c(c.P, r, sets)
 	errflow.E5(c.P, r, apiCountFuncs)
 	errflow.E5b(c.P, r, apiCountFuncs)
+	// the counts writePacket reports are bytes accepted by the caller's writer only if the muxer's packet writer writes
+	// straight into it (a buffer in between would report bytes the writer never accepted when the flush fails)
+	muxerWriterLink(c, "E5", "bitsWriter", "w", true, "the byte counts of writePacket are bytes handed to the caller's writer")
 	r.Floor("E2", "io-tainted error call sites", r.Counters["io_error_call_sites"], 40)
 	r.Count("writer_tainted_funcs", len(sets.Writer))
 	r.Count("reader_tainted_funcs", len(sets.Reader))
